@@ -44,7 +44,10 @@ def pool():
     P += [box, tet, X.xform(box, ((1, 0, 0), (0, 1, 0), (0, 0, 1)), 1, (1, H, H)),
           X.Ph(tuple(product((H, 1), (Q, 3 * Q), (Q, 3 * Q)))),
           # an elongated, not centrally symmetric body and a small box near its apex
-          A.polyhedron('spire'), X.Ph(tuple(product((F(7, 8), F(9, 8)), (F(7, 8), F(9, 8)), (F(13, 2), 7))))]
+          A.polyhedron('spire'), X.Ph(tuple(product((F(7, 8), F(9, 8)), (F(7, 8), F(9, 8)), (F(13, 2), 7)))),
+          # coordinates -1 and -2 together (CPython hash(-1) == hash(-2)): a unit cube between z=-2 and z=-1 and its two face planes
+          X.Ph(tuple(product((0, 1), (0, 1), (-2, -1)))), X.Pl((0, 0, -1), (0, 0, 1)), X.Pl((0, 0, -2), (0, 0, 1)),
+          X.Pg(((-1, 0, -1), (2, 0, -1), (2, 2, -1), (-1, 2, -1)))]
     return P
 
 
